@@ -5,13 +5,16 @@ import PGA.Model.History
 The world handed to the model is symbolic: library data are provenance terms, a scheme is the name of the library it was
 loaded from, the value of an evaluation is the tuple of what the evaluation was given.  The reply therefore says, for
 every operation of the history, *which fresh computation its output must equal* (the harness runs that computation in a
-fresh process and compares).  Only the two control-relevant facts are supplied as tables: which builtin libraries fail
-to load, and the outcome of `Estimate`'s checks per (library data, descriptor mapping).
+fresh process and compares).  Only the three control-relevant facts are supplied as tables: which builtin libraries fail
+to load, the outcome of `Estimate`'s checks per (library data, descriptor mapping), and which merges are refused per
+(destination data, source data, overwrite).  A key the tables lack is reported (`unknownEst`, `unknownMerge` — the latter
+with the index of the operation; once a merge of unknown outcome was met the rest of that run names provenances that may
+be wrong, so nothing further is reported) and the harness asks again with the table completed.
 
-`c15.run`: {"f1Fixed": b, "loadErr": [[L, code]…], "est": [[provKey, d, code|-1]…],
+`c15.run`: {"f1Fixed": b, "loadErr": [[L, code]…], "est": [[provKey, d, code|-1]…], "mergeErr": [[provKey dst, provKey src, ow, code|-1]…],
             "ops": [{"k":"load","L":n,"byPath":b} | {"k":"decompose","lib":i,"m":n} | {"k":"estimate","lib":i,"d":n,"forMol":n}
                     | {"k":"evaluate","est":e,"T":n,"q":n,"el":b} | {"k":"merge","dst":i,"src":j,"ow":b}]}
- ↦ {"outs": […], "unknownEst": [[provKey, d]…]} -/
+ ↦ {"outs": […], "unknownEst": [[prov, d, provKey]…], "unknownMerge": [[provKey dst, provKey src, ow, op index]…], "libs": […]} -/
 namespace PGA.Drv.C15
 open Lean PGA.Drv PGA.History
 
@@ -32,7 +35,8 @@ structure EvalKey where
   el : Option (Option Mol)
 
 /-- descriptor ids produced by the symbolic `decompF` are never read back by the harness (it names mappings itself) -/
-def symWorld (f1Fixed : Bool) (loadErr : List (Nat × Nat)) (est : List ((String × Nat) × Int)) : World Nat Prov EvalKey where
+def symWorld (f1Fixed : Bool) (loadErr : List (Nat × Nat)) (est : List ((String × Nat) × Int))
+    (mergeErr : List ((String × String × Bool) × Int)) : World Nat Prov EvalKey where
   env := 0
   f1Fixed := f1Fixed
   loadF := fun _ _ _ L => match loadErr.lookup L with | some c => .error c | none => .ok (L, .loaded L)
@@ -42,7 +46,10 @@ def symWorld (f1Fixed : Bool) (loadErr : List (Nat × Nat)) (est : List ((String
     | some c => if c < 0 then none else some c.toNat
     | none => some 999999
   evalF := fun snap now d T q el => .ok ⟨snap, now, d, T, q, el⟩
-  mergeF := fun a b ow => (.merged a b ow, none)
+  mergeF := fun a b ow =>
+    match mergeErr.lookup (provKey a, provKey b, ow) with
+    | some c => if c < 0 then .ok (.merged a b ow) else .error c.toNat
+    | none => .ok (.merged a b ow)
 
 def getOp (j : Json) : Except String Op := do
   let k ← str j "k"
@@ -75,7 +82,15 @@ def outJson (s : State Nat Prov) (op : Op) (o : Out Prov EvalKey) : Json :=
   | .value (.ok k) => Json.mkObj [("value", Json.mkObj [("snap", provJson k.snap), ("now", provJson k.now), ("d", Json.num k.d),
       ("T", Json.num k.T), ("q", Json.num k.q), ("el", elJson k.el)])]
   | .value (.error c) => Json.mkObj [("failed", Json.num c)]
-  | .merged d _ => Json.mkObj [("merged", provJson d)]
+  | .merged d err =>
+    -- the destination's data afterwards (its data before, if the merge is refused) and the merge the fresh process is to run
+    match op with
+    | .merge i j ow =>
+      match s.libs[i]?, s.libs[j]? with
+      | some a, some b => Json.mkObj [("merged", provJson d), ("refused", Json.bool err.isSome), ("dst", provJson a.data),
+          ("src", provJson b.data), ("ow", Json.bool ow)]
+      | _, _ => Json.mkObj [("badRef", Json.bool true)]
+    | _ => Json.mkObj [("badRef", Json.bool true)]
   | .failed .attribute => Json.mkObj [("failed", Json.str "attribute")]
   | .failed (.world c) => Json.mkObj [("failed", Json.num c)]
   | .badRef => Json.mkObj [("badRef", Json.bool true)]
@@ -85,6 +100,12 @@ def getEst (j : Json) : Except String ((String × Nat) × Int) := do
   match a.toList with
   | [p, d, c] => pure ((← p.getStr?, ← d.getNat?), ← c.getInt?)
   | _ => throw "est row must be [provKey, d, code]"
+
+def getMergeRow (j : Json) : Except String ((String × String × Bool) × Int) := do
+  let a ← j.getArr?
+  match a.toList with
+  | [p, q, w, c] => pure ((← p.getStr?, ← q.getStr?, ← w.getBool?), ← c.getInt?)
+  | _ => throw "mergeErr row must be [provKey, provKey, ow, code]"
 
 def getPair (j : Json) : Except String (Nat × Nat) := do
   let a ← j.getArr?
@@ -99,25 +120,39 @@ def handle (op : String) (j : Json) : Option (Except String Json) :=
       let loadErr ← (← arr j "loadErr").toList.mapM getPair
       let est ← (← arr j "est").toList.mapM getEst
       let ops ← (← arr j "ops").toList.mapM getOp
-      let W := symWorld f1 loadErr est
+      let mergeErr ← match j.getObjVal? "mergeErr" with
+        | .ok (.arr a) => a.toList.mapM getMergeRow
+        | _ => pure []
+      let W := symWorld f1 loadErr est mergeErr
       let mut s : State Nat Prov := init 0 0
       let mut outs : Array Json := #[]
       let mut unknown : Array Json := #[]
+      let mut unknownMerge : Array Json := #[]
+      let mut stale := false
+      let mut idx : Nat := 0
       for o in ops do
         match o with
         | .estimate i d _ =>
           match s.libs[i]? with
-          | some l => if (est.lookup (provKey l.data, d)).isNone then
+          | some l => if !stale && (est.lookup (provKey l.data, d)).isNone then
               unknown := unknown.push (Json.arr #[provJson l.data, Json.num d, Json.str (provKey l.data)])
           | none => pure ()
+        | .merge i k ow =>
+          match s.libs[i]?, s.libs[k]? with
+          | some a, some b => if !stale && (mergeErr.lookup (provKey a.data, provKey b.data, ow)).isNone then
+              unknownMerge := unknownMerge.push (Json.arr #[Json.str (provKey a.data), Json.str (provKey b.data), Json.bool ow, Json.num idx])
+              stale := true
+          | _, _ => pure ()
         | _ => pure ()
         let r := step W s o
         outs := outs.push (outJson s o r.2)
         s := r.1
+        idx := idx + 1
       -- the final state of the model, for the frame comparison: per library its provenance and remembered name
       let libs := s.libs.map fun l => Json.mkObj [("prov", provJson l.prov), ("key", Json.str (provKey l.prov)),
         ("name", match l.name with | some m => Json.num m | none => Json.null)]
-      pure <| Json.mkObj [("outs", Json.arr outs), ("unknownEst", Json.arr unknown), ("libs", Json.arr libs.toArray)]
+      pure <| Json.mkObj [("outs", Json.arr outs), ("unknownEst", Json.arr unknown), ("unknownMerge", Json.arr unknownMerge),
+        ("libs", Json.arr libs.toArray)]
   | _ => none
 
 end PGA.Drv.C15
